@@ -363,8 +363,11 @@ class World:
 
     def observe(self):
         w = self.w
-        return {'to_dict': json.dumps(w.to_dict(), sort_keys=True), 'pw': w.encryption_password,
-                'accounts': [(a.encrypted, a.seed, a.private_key_string,
+        d = w.to_dict()
+        for a in d['accounts']:       # an absent secret is None on import and '' after a decrypt attempt: the same thing
+            a['seed'], a['private_key'] = a['seed'] or '', a['private_key'] or ''
+        return {'to_dict': json.dumps(d, sort_keys=True), 'pw': w.encryption_password,
+                'accounts': [(a.encrypted, a.seed or '', a.private_key_string or '',
                               a.private_key.private_key_bytes if a.private_key is not None else None)
                              for a in w.accounts],
                 'file': self.file_bytes()}
@@ -1519,7 +1522,14 @@ def run(ctx):
     pws = QUICK_PW if quick else list(range(len(PASSWORDS)))
     pairs = [(k, pi, depth) for k in DESIGN_KINDS for pi in pws]
     pairs += [(k, pi, depth - 1 if quick else depth) for k in EXTRA_KINDS for pi in (EXTRA_PW[:2] if quick else EXTRA_PW)]
-    items += [('bfs', k, pi, d, rng_seed) for k, pi, d in pairs]
+    # histories that change the account set (add-account:* / remove-account, each followed by save as in the daemon):
+    # enabled for a few pairs, in histories of length <= acct_depth; these items go first (they are the longest)
+    acct_depth = 4 if quick else 5
+    acct_pairs = {('seeded', 0), ('watch', 18), ('xprv', 30)} if quick else \
+        {('seeded', 0), ('watch', 18), ('xprv', 30), ('two', 0), ('seeded+chan', 0), ('watch+seeded', 0)}
+    bfs_items = [('bfs', k, pi, d, rng_seed, acct_depth if (k, pi) in acct_pairs else 0) for k, pi, d in pairs]
+    assert sum(1 for it in bfs_items if it[5]) == len(acct_pairs)
+    items = [it for it in bfs_items if it[5]] + items + [it for it in bfs_items if not it[5]]
     # (c)
     n_unlock = 10000 if quick else 100000
     step = 2500 if quick else 10000
@@ -1542,7 +1552,11 @@ def run(ctx):
               f'{OPS} (p = the password, q = a second valid one, w = a near miss), explored breadth-first with '
               'canonical-state hashing on (model state, per-account flags); in every locked state every other '
               'password of the alphabet plus 11 near misses is tried without branching. Non-trivial = distinct '
-              'canonical states other than the initial one. (b) per (account set, scenario, fs mode): every prefix '
+              'canonical states other than the initial one. For a few pairs the operations that change the account '
+              f'set ({ACCOUNT_OPS}: Account.from_dict on the live wallet / accounts.remove, then save, as the daemon does, '
+              f'in any lock state; at most {MAX_ACCOUNTS_DELTA} additions) are enabled in histories of length <= acct_depth; the '
+              'model is per account and the secrecy clause covers every account currently in the wallet, judged on the '
+              'bytes at the moment they are handed to storage. (b) per (account set, scenario, fs mode): every prefix '
               'of the crashfs operation log x every persisted prefix of the pending directory operations x every '
               'byte prefix of every un-synced data operation of every reachable file (full product; a crash point '
               f'with more than {FULL_PRODUCT_LIMIT} images - several files un-synced at once, which only mutants '
@@ -1558,14 +1572,16 @@ def run(ctx):
               f'UTF-8 (and pw0..pw{n_deep_key - 1} for valid padding of the key-only wallet\'s private key); every hit '
               'is handed to the real unlock on the in-memory and the reloaded wallet.'),
         exhaustive=True,
-        bounds={'depth': depth, 'depth_extra_account_sets': depth - 1 if quick else depth, 'passwords': len(pws), 'account_sets': len(DESIGN_KINDS) + len(EXTRA_KINDS),
+        bounds={'depth': depth, 'acct_depth': acct_depth, 'pairs_with_account_ops': sorted(acct_pairs), 'depth_extra_account_sets': depth - 1 if quick else depth, 'passwords': len(pws), 'account_sets': len(DESIGN_KINDS) + len(EXTRA_KINDS),
                 'pairs': len(pairs), 'crash_account_sets': len(crash_kinds), 'crash_scenarios': len(SCENARIOS),
                 'fs_modes': 2, 'torn_writes': 'every byte', 'sweep_unlock': n_unlock, 'sweep_unpack': n_unpack,
                 'carry_account_sets': len(carry_kinds), 'deep_search_seed': n_deep_seed, 'deep_search_key': n_deep_key},
         bound_completed=(f"depth {depth}; deepest new state at depth {ctx.res.maxes.get('max_depth_new_state')}; state "
                          f"space closed (no new state at the last level) for "
                          f"{ctx.res.witnesses.get('state_space_closed_before_depth_bound', 0)}/{len(pairs)} "
-                         f"(account set, password) pairs"),
+                         f"(account set, password) pairs over the 10 fixed-account-set operations; histories with "
+                         f"account-set changes: every history of length <= {acct_depth} for {len(acct_pairs)} pairs (deepest "
+                         f"new state at depth {ctx.res.maxes.get('max_depth_new_state_with_account_ops')}, not closed)"),
         assumptions=[
             'os.urandom (IVs), time.time (preference timestamps) are deterministic counters bound into '
             'lbry.wallet.account / lbry.crypto.crypt / lbry.wallet.wallet; VERIF_SEED only rotates the IV stream',
@@ -1587,7 +1603,7 @@ def run(ctx):
             'wrong_passwords': 'the second valid password q, a near miss w, and (non-branching, in every new locked '
                                'state) every other alphabet password + near misses: trailing/leading blank, doubled, '
                                'truncated, case-swapped, NFD/NFKC-normalised, umlaut stripped, NUL appended, mojibake',
-            'operations': OPS,
+            'operations': OPS, 'account_operations': ACCOUNT_OPS,
             'crash_scenarios': {k: {'start_from': v[0], 'crashed_ops': v[1]} for k, v in SCENARIOS.items()},
         },
         interpretation=[
@@ -1595,12 +1611,16 @@ def run(ctx):
             'never older than a version already durable (low-water mark); "the complete previous version" may be older '
             'than the last save() that returned, because its rename is not followed by a directory fsync (tallied)',
             'wrong password on a wallet that holds no secret (watch-only) is not judged (tallied)',
+            'secrecy of the file is judged when bytes are handed to storage; a file written while no password was set '
+            '(locked wallet after a restart, account added) that is still on disk after a later unlock is tallied',
             'unlock() on a wallet that is not locked, refused lock/decrypt/save, held-password bookkeeping, secrets in the '
             'packed sync blob: outside the statement, tallied only',
         ],
         expected_witnesses=['wrong_password_refused_wallet_unchanged', 'unlock_restored_secrets',
                             'reload_of_encrypted_file', 'pack_unpack_identity', 'wrong_password_valid_padding',
-                            'file_scanned_while_encryption_enforced', 'wrong_password_seed_decrypts_to_valid_text',
+                            'file_scanned_while_encryption_enforced', 'account_added_to_locked_wallet',
+                            'file_scanned_with_unencrypted_account_in_locked_wallet',
+                            'unlock_restored_secrets_of_added_account', 'wrong_password_seed_decrypts_to_valid_text',
                             'wrong_password_key_padding_valid', 'second_save_over_stale_temp_longer_than_new_content',
                             'second_save_over_stale_temp_shorter_than_new_content',
                             'second_save_over_stale_temp_equal_than_new_content', 'second_save_crash_enumerated',
